@@ -743,15 +743,16 @@ func (b *Builder) allowLeader(peer *metapb.Peer, ignoreClusterLimit bool) bool {
 
 // stepPlan is exec step. It can be:
 // 1. promote learner + demote voter.
-// 2. add voter + remove voter.
-// 3. add learner + remove learner.
-// 4. add learner + promote learner + remove voter.
-// 5. add voter + demote voter + remove learner.
-// 6. promote learner.
-// 7. demote voter.
-// 8. remove voter/learner.
-// 9. add voter/learner.
-// Plan 1-5 (replace plans) do not change voter/learner count, so they have higher priority.
+// 2. add voter + demote voter.
+// 3. add voter + remove voter.
+// 4. add learner + remove learner.
+// 5. add learner + promote learner + remove voter.
+// 6. add voter + demote voter + remove learner.
+// 7. promote learner.
+// 8. demote voter.
+// 9. remove voter/learner.
+// 10. add voter/learner.
+// Plan 1-6 (replace plans) do not reduce the voter count, so they have higher priority.
 type stepPlan struct {
 	leaderBeforeAdd    uint64 // leader before adding peer.
 	leaderBeforeRemove uint64 // leader before removing peer.
@@ -799,6 +800,15 @@ func (b *Builder) planReplace() stepPlan {
 		for _, j := range b.toPromote.IDs() {
 			promote := b.toPromote[j]
 			best = b.planReplaceLeaders(best, stepPlan{promote: promote, demote: demote})
+		}
+	}
+	// add voter + demote voter
+	for _, i := range b.toDemote.IDs() {
+		demote := b.toDemote[i]
+		for _, j := range b.toAdd.IDs() {
+			if add := b.toAdd[j]; !core.IsLearner(add) {
+				best = b.planReplaceLeaders(best, stepPlan{demote: demote, add: add})
+			}
 		}
 	}
 	// add voter + remove voter OR add learner + remove learner.
